@@ -353,7 +353,25 @@ func runC12(r *Run, p *Prog) {
 						fsS := fieldStores(a)
 						nn, pp := fsS["Name"], fsS["Parameters"]
 						okk := len(nn) == 1 && strip(T.T(nn[0])) == mT+"."+efld.Name() && len(pp) == 1 && strip(T.T(pp[0])) == mT+"."+pfld.Name()
-						r.Ob("X3", shortName(cm.Recv), "Error{Name: frame's error member, Parameters: frame's raw parameters}", cs.Instr.Pos(), okk, fmt.Sprintf("Name=%v Parameters=%v", termsOf(T, nn), termsOf(T, pp)))
+						detailX := fmt.Sprintf("Name=%v Parameters=%v", termsOf(T, nn), termsOf(T, pp))
+						// both members are set on every path to the conversion (the typed-error conversion asserts the
+						// dynamic type of Parameters: a member left unset is a nil interface there)
+						if okk {
+							for _, ref := range *a.Referrers() {
+								fa, isFA := ref.(*ssa.FieldAddr)
+								if !isFA {
+									continue
+								}
+								for _, st := range storesTo(fa) {
+									dom := st.Block() == cs.Instr.Block() && instrIndex(st) < instrIndex(cs.Instr) || st.Block() != cs.Instr.Block() && st.Block().Dominates(cs.Instr.Block())
+									if !dom {
+										okk = false
+										detailX += fmt.Sprintf("; member %s is set only on some paths to the conversion", fieldName(fa.X, fa.Field))
+									}
+								}
+							}
+						}
+						r.Ob("X3", shortName(cm.Recv), "Error{Name: frame's error member, Parameters: frame's raw parameters}", cs.Instr.Pos(), okk, detailX)
 						raw := false
 						if pt, ok := pfld.Type().(*types.Pointer); ok {
 							raw = isNamed(pt.Elem(), "encoding/json", "RawMessage")
